@@ -6,12 +6,15 @@
    value).  The right-hand side of a [Write] is evaluated completely before the
    object is overwritten: this is the contract of lincomb (C01), of
    op(x, out=y) (C03) and of proximals called with out aliased to the input
-   (C10).  Evaluation fails (None) on an unbound name. *)
+   (C10).  Evaluation fails (None) on an unbound name.  A `return` inside the
+   loop binds the marker name "#returned"; every later statement (and every
+   later loop body) is then skipped. *)
 From Coq Require Import ZArith QArith String List Bool.
-From Verif Require Import Base.Num Base.Vec C11.Syntax.
+From Verif Require Import Base.Num Base.Vec C11.Model C11.Syntax.
 Import ListNotations.
 Local Open Scope num_scope.
 
+Local Open Scope string_scope.
 Section Interp.
 Context {T : Type} `{Num T}.
 Notation vec := (list T).
@@ -91,12 +94,19 @@ Fixpoint exec1 (I : interp) (s : hst) (c : stmt) : option hst :=
       obind (veval I s e) (fun v => obind (env_get (h_env s) x) (fun i =>
         obind (heap_set i v (h_heap s)) (fun h => Some (mk_hst (h_env s) h (h_log s)))))
   | Callback x => obind (deref s x) (fun v => Some (mk_hst (h_env s) (h_heap s) (h_log s ++ [v])))
+  | ReturnIfNormSqLt x tol =>
+      obind (deref s x) (fun v =>
+        if normsq_lt v (seval I tol)
+        then Some (mk_hst (env_set (h_env s) "#returned" O) (h_heap s) (h_log s))
+        else Some s)
   end.
 
+Definition returned (s : hst) : bool :=
+  match env_get (h_env s) "#returned" with Some _ => true | None => false end.
 Fixpoint exec (I : interp) (cs : list stmt) (s : hst) : option hst :=
   match cs with
   | [] => Some s
-  | c :: cs' => obind (exec1 I s c) (exec I cs')
+  | c :: cs' => if returned s then Some s else obind (exec1 I s c) (exec I cs')
   end.
 
 (* ---- canonical form: drop unreachable objects, number the reachable ones by
